@@ -3,7 +3,7 @@ from props import lifecycle
 
 
 def check(run):
-    return lifecycle.check(run, "C06", ["general", "pipeline", "deep", "idle", "long"])
+    return lifecycle.check(run, "C06", ["general", "pipeline", "deep", "blocked-writer", "idle", "long"])
 
 
 def replay(run, path):
